@@ -368,7 +368,8 @@ def r2_field_order(cx):
                 cx.require(sg == want, fn, "sign(epoch)=%+d sign(version)=%+d sign(release)=%+d -> result sign %+d (lexicographic epoch/version/release)" % (e, v, r, want),
                            construct="(e,v,r)=(%+d,%+d,%+d) -> %r" % (e, v, r, got))
     ep = [x for f_ in feat.region(m, fn) for x in find_calls(f_.body, name="int") if "epoch" in U(x)]
-    cx.require(len(ep) == 2, fn, "epochs are compared as integers", rule="C13.R2", construct="int(left.epoch), int(right.epoch)")
+    raw = [x for f_ in feat.region(m, fn) for x in ast.walk(f_) if isinstance(x, ast.Attribute) and x.attr == "epoch" and not (isinstance(parent(x), ast.Call) and call_name(parent(x)) == "int")]
+    cx.require(len(set(U(x) for x in ep)) == 2 and not raw, fn, "epochs are compared as integers", rule="C13.R2", construct="int(left.epoch), int(right.epoch)")
 
 
 def r2b_compare_is_pure(cx):
